@@ -260,6 +260,22 @@ Proof.
   intros n m stack st r st' Hle. replace m with (n + (m - n))%nat by lia. apply (proj1 (mono_add n (m - n))).
 Qed.
 
+Theorem recover_mono :
+  forall n m err xs stack st r st', (n <= m)%nat ->
+    recover n err xs stack st = (r, st') -> r <> FOutOfFuel -> recover m err xs stack st = (r, st').
+Proof.
+  intros n m err xs stack st r st' Hle. replace m with (n + (m - n))%nat by lia.
+  apply (proj1 (proj2 (mono_add n (m - n)))).
+Qed.
+
+Theorem run_thunk_mono :
+  forall n m th st q st', (n <= m)%nat ->
+    run_thunk n th st = (q, st') -> is_fuel_err q = false -> run_thunk m th st = (q, st').
+Proof.
+  intros n m th st q st' Hle. replace m with (n + (m - n))%nat by lia.
+  apply (proj1 (proj2 (proj2 (mono_add n (m - n))))).
+Qed.
+
 Theorem call_goal_mono :
   forall n m g k e st q st', (n <= m)%nat ->
     call_goal n g k e st = (q, st') -> is_fuel_err q = false -> call_goal m g k e st = (q, st').
